@@ -362,7 +362,33 @@ class FV:
         # a compound expression that mentions a local with several definitions: split on that local
         return self._split_on_locals(expr, at, {}, depth)
 
+    def _expand_single_defs(self, expr: ast.AST, at: int, depth: int = 0) -> ast.AST:
+        """Replace locals that have exactly one plain definition by that definition (raw), so that a conditionally
+        assigned local hidden behind temporaries (m = P.match(well); key = int(m.group(1))) becomes visible."""
+        if depth > 4:
+            return expr
+        cfg = self.cfg
+
+        class X(ast.NodeTransformer):
+            def visit_Name(s_, n: ast.Name):
+                if not isinstance(n.ctx, ast.Load):
+                    return n
+                defs = sorted(cfg.reaching()[at].get(n.id, ()))
+                if len(defs) == 1:
+                    dn = cfg.nodes[defs[0]]
+                    if dn.kind == "stmt" and isinstance(dn.ast, ast.Assign) and len(dn.ast.targets) == 1 and isinstance(dn.ast.targets[0], ast.Name) \
+                            and cfg.enclosing_loops(defs[0]) == cfg.enclosing_loops(at)[: len(cfg.enclosing_loops(defs[0]))]:
+                        return self._expand_single_defs(copy.deepcopy(dn.ast.value), defs[0], depth + 1)
+                return n
+
+        return X().visit(copy.deepcopy(expr))
+
     def _split_on_locals(self, expr: ast.AST, at: int, bound: Dict[str, ast.AST], depth: int):
+        if not bound and depth <= 2:
+            expanded = self._expand_single_defs(expr, at)
+            if any(isinstance(s_, ast.Name) and isinstance(s_.ctx, ast.Load) and len(self.cfg.reaching()[at].get(s_.id, ())) > 1 for s_ in own_walk(expanded)) and not any(
+                    isinstance(s_, ast.Name) and isinstance(s_.ctx, ast.Load) and len(self.cfg.reaching()[at].get(s_.id, ())) > 1 for s_ in own_walk(expr)):
+                expr = expanded
         if depth <= 4:
             for sub in own_walk(expr):
                 if isinstance(sub, ast.Name) and isinstance(sub.ctx, ast.Load) and sub.id not in bound:
@@ -614,6 +640,8 @@ def const_prefix(e: ast.AST) -> Optional[str]:
         for v in e.values:
             if isinstance(v, ast.Constant) and isinstance(v.value, str):
                 out += v.value
+            elif isinstance(v, ast.FormattedValue) and isinstance(v.value, ast.Constant) and isinstance(v.value.value, str) and v.format_spec is None and v.conversion == -1:
+                out += v.value.value  # a constant interpolated into the template (a helper's parameter bound to a literal)
             else:
                 break
         return out
@@ -872,7 +900,16 @@ def template_parts(e: ast.AST) -> Optional[List[object]]:
     parts: List[object] = []
     for v in e.values:
         if isinstance(v, ast.Constant):
-            parts.append(str(v.value))
+            if parts and isinstance(parts[-1], str):
+                parts[-1] += str(v.value)
+            else:
+                parts.append(str(v.value))
+        elif isinstance(v, ast.FormattedValue) and isinstance(v.value, ast.Constant) and isinstance(v.value.value, str) and v.format_spec is None and v.conversion == -1:
+            # a literal interpolated into the template (helper parameter bound to a constant): part of the constant text
+            if parts and isinstance(parts[-1], str):
+                parts[-1] += v.value.value
+            else:
+                parts.append(v.value.value)
         elif isinstance(v, ast.FormattedValue):
             spec = None
             if v.format_spec is not None:
